@@ -11,7 +11,8 @@ import progs as P
 import values as V
 import c01_targeted as T
 
-COQ_FILES = ("L6_Conc/FsOps.v", "L6_Conc/LocalProgs.v", "L6_Conc/CrashProofs.v", "Properties/C06.v")
+COQ_FILES = ("L6_Conc/FsOps.v", "L6_Conc/LocalProgs.v", "L6_Conc/CrashProofs.v", "L6_Conc/SeqRefine.v", "L6_Conc/Recovery.v", "Properties/C06.v", "Properties/C06b.v")
+PROPERTY_FILES = ("C06", "C06b")
 EXTRACTED = ("ConstStore",)
 ALLOWED_AXIOMS = ()
 i_ = V.i_
